@@ -179,9 +179,9 @@ def wrap (k : Kind) (v : Int) : Int :=
   if k.signed && decide (r ≥ (2 : Int) ^ (k.bits - 1)) then r - m else r
 
 /-- `IsEnum[T, TV](value)`, `value` of the integer type TV (kind `kV`):
-    `for _, v := range Values() { if v == T(value) && TV(v) == value { return true } }` -/
+    `for _, v := range Values() { if v == T(value) && TV(v) == value && (v < 0) == (value < 0) { return true } }` -/
 def isEnum (kT kV : Kind) (vals : List Int) (value : Int) : Bool :=
-  vals.any (fun v => v == wrap kT value && wrap kV v == value)
+  vals.any (fun v => v == wrap kT value && wrap kV v == value && (decide (v < 0) == decide (value < 0)))
 
 /-! ## codec methods -/
 
